@@ -258,37 +258,45 @@ def varfont_overrides(ctx):
         lib = ["ufoLib2", "defcon"][i % 2]
         fn = ["compileVariableTTFs", "compileVariableCFF2s"][(i // 2) % 2]
         override = dict({k: int(v) for k, v in ov.items()}, **ovx)
-        ds, fonts = dsgen.make_designspace(rng, masters, lib, instances=False, vf_info=[override])
+        # a SECOND variable font in the same document overrides one unrelated attribute only: every other field of it -- and of a
+        # static font compiled from the default master afterwards -- shows the source's values, not the first font's overrides
+        ds, fonts = dsgen.make_designspace(rng, masters, lib, instances=False, vf_info=[override, {"openTypeNameDesigner": "Second"}])
         case = {"function": fn, "lib": lib, "default_master_info": jsonable(dict(info0, **extra0)), "variable_font_public.fontInfo": jsonable(override)}
         ctx.count(); ctx.klass("vf-info:%s/%s" % (fn, lib))
         if any(not v for v in override.values()):
             ctx.nontriv(("vf-info", i, ctx.scale))
         try:
-            vf = getattr(ufo2ft, fn)(ds)["VF0"]
-            buf = io.BytesIO(); vf.save(buf); buf.seek(0); tt = TTFont(buf)
+            built = getattr(ufo2ft, fn)(ds)
+            static_after = (ufo2ft.compileTTF if "TTF" in fn else ufo2ft.compileOTF)(fonts[0])
+            loaded = []
+            for one in (built["VF0"], built["VF1"], static_after):
+                buf = io.BytesIO(); one.save(buf); buf.seek(0); loaded.append(TTFont(buf))
         except Exception as e:
             ctx.spec_failure(case, "%s with public.fontInfo overrides raised %s: %s\n%s" % (fn, type(e).__name__, e, traceback.format_exc()[-1000:]))
             continue
-        eff = dict(info0, **ov)
-        o, h, post = tt["OS/2"], tt["hhea"], tt["post"]
-        obs = (tt["head"].unitsPerEm, o.sxHeight, o.sCapHeight, o.sTypoAscender, o.sTypoDescender, o.sTypoLineGap,
-               o.usWinAscent, o.usWinDescent, h.ascent, h.descent, h.lineGap)
-        cases.append(G.tup("(mkInfo %s)" % " ".join(g_optq(eff.get(a)) for a in ATTRS), "(mkVM %s)" % " ".join(G.z(v) for v in obs)))
-        meta.append(dict(case, impl_fields=list(obs)))
-        effx = dict(extra0, **ovx)
-        checks = [("italicAngle", abs(post.italicAngle - effx["italicAngle"]) < 1e-3, post.italicAngle),
-                  ("postscriptUnderlinePosition", post.underlinePosition == geom.ot_round(Fr(effx["postscriptUnderlinePosition"])), post.underlinePosition),
-                  ("postscriptUnderlineThickness", post.underlineThickness == geom.ot_round(Fr(effx["postscriptUnderlineThickness"])), post.underlineThickness),
-                  ("postscriptIsFixedPitch", bool(post.isFixedPitch) == bool(effx["postscriptIsFixedPitch"]), post.isFixedPitch),
-                  ("openTypeOS2Type", o.fsType == sum(1 << b for b in set(effx["openTypeOS2Type"])), o.fsType),
-                  ("openTypeHheaCaretOffset", h.caretOffset == effx["openTypeHheaCaretOffset"], h.caretOffset),
-                  ("openTypeOS2WeightClass", o.usWeightClass == effx["openTypeOS2WeightClass"], o.usWeightClass),
-                  ("openTypeOS2WidthClass", o.usWidthClass == effx["openTypeOS2WidthClass"], o.usWidthClass),
-                  ("trademark", (tt["name"].getDebugName(7) or "") == effx["trademark"] or (effx["trademark"] == "" and "trademark" in ovx), tt["name"].getDebugName(7))]
-        for attr, ok, got in checks:
-            if not ok:
-                ctx.spec_failure(dict(case, attribute=attr), "variable font: %s should be %r (override %s), table holds %r" % (
-                    attr, effx[attr], "given" if attr in ovx else "absent: default master's value", got))
+        for tt, ov, ovx, case in ((loaded[0], ov, ovx, case),
+                                  (loaded[1], {}, {}, dict(case, judged="the second variable font of the document (overrides the designer only)")),
+                                  (loaded[2], {}, {}, dict(case, judged="the default master compiled alone afterwards"))):
+          eff = dict(info0, **ov)
+          o, h, post = tt["OS/2"], tt["hhea"], tt["post"]
+          obs = (tt["head"].unitsPerEm, o.sxHeight, o.sCapHeight, o.sTypoAscender, o.sTypoDescender, o.sTypoLineGap,
+                 o.usWinAscent, o.usWinDescent, h.ascent, h.descent, h.lineGap)
+          cases.append(G.tup("(mkInfo %s)" % " ".join(g_optq(eff.get(a)) for a in ATTRS), "(mkVM %s)" % " ".join(G.z(v) for v in obs)))
+          meta.append(dict(case, impl_fields=list(obs)))
+          effx = dict(extra0, **ovx)
+          checks = [("italicAngle", abs(post.italicAngle - effx["italicAngle"]) < 1e-3, post.italicAngle),
+                    ("postscriptUnderlinePosition", post.underlinePosition == geom.ot_round(Fr(effx["postscriptUnderlinePosition"])), post.underlinePosition),
+                    ("postscriptUnderlineThickness", post.underlineThickness == geom.ot_round(Fr(effx["postscriptUnderlineThickness"])), post.underlineThickness),
+                    ("postscriptIsFixedPitch", bool(post.isFixedPitch) == bool(effx["postscriptIsFixedPitch"]), post.isFixedPitch),
+                    ("openTypeOS2Type", o.fsType == sum(1 << b for b in set(effx["openTypeOS2Type"])), o.fsType),
+                    ("openTypeHheaCaretOffset", h.caretOffset == effx["openTypeHheaCaretOffset"], h.caretOffset),
+                    ("openTypeOS2WeightClass", o.usWeightClass == effx["openTypeOS2WeightClass"], o.usWeightClass),
+                    ("openTypeOS2WidthClass", o.usWidthClass == effx["openTypeOS2WidthClass"], o.usWidthClass),
+                    ("trademark", (tt["name"].getDebugName(7) or "") == effx["trademark"] or (effx["trademark"] == "" and "trademark" in ovx), tt["name"].getDebugName(7))]
+          for attr, ok, got in checks:
+              if not ok:
+                  ctx.spec_failure(dict(case, attribute=attr), "variable font: %s should be %r (override %s), table holds %r" % (
+                      attr, effx[attr], "given" if attr in ovx else "absent: default master's value", got))
     vals = ctx.coq_eval(IMPORTS, FN_VM, cases, chunk=100, tag="VFInfo")
     for v, case in zip(vals, meta):
         if v is None:
